@@ -325,35 +325,170 @@ func (p *Prog) callGuard(label string, names []string, idx int, want FactKind, e
 
 // reach computes the set of blocks reachable from the given start blocks when the
 // deleted edges are removed. pred (optional) receives the BFS tree for witness paths.
+//
+// The search is path-sensitive in exactly one respect: a boolean Phi whose incoming
+// edges include constants and which is used as an If condition (the shape go/ssa gives
+// to `retry := false; if c { retry = true }; ...; if retry {`) remembers which edge it
+// was entered through, so that the If only follows the consistent successor. This
+// removes the commonest class of infeasible paths without losing any feasible one.
 func reach(fn *ssa.Function, starts []*ssa.BasicBlock, deleted map[edge]bool, pred map[int]int) map[int]bool {
+	tracked := trackedPhis(fn)
+	type state struct {
+		b   int
+		env string
+	}
 	seen := map[int]bool{}
-	var q []*ssa.BasicBlock
+	seenSt := map[state]bool{}
+	type item struct {
+		b   *ssa.BasicBlock
+		env map[*ssa.Phi]int8
+	}
+	encode := func(env map[*ssa.Phi]int8) string {
+		if len(env) == 0 {
+			return ""
+		}
+		bs := make([]byte, len(tracked.order))
+		for i, ph := range tracked.order {
+			bs[i] = byte('0' + env[ph])
+		}
+		return string(bs)
+	}
+	var q []item
 	for _, s := range starts {
-		if !seen[s.Index] {
-			seen[s.Index] = true
-			if pred != nil {
-				pred[s.Index] = -1
+		st := state{s.Index, ""}
+		if !seenSt[st] {
+			seenSt[st] = true
+			if !seen[s.Index] {
+				seen[s.Index] = true
+				if pred != nil {
+					pred[s.Index] = -1
+				}
 			}
-			q = append(q, s)
+			q = append(q, item{s, nil})
 		}
 	}
 	for len(q) > 0 {
-		b := q[0]
+		it := q[0]
 		q = q[1:]
+		b := it.b
 		for si, s := range b.Succs {
 			if deleted[edge{b.Index, si}] {
 				continue
 			}
+			// is this successor consistent with a tracked phi condition?
+			if len(b.Succs) == 2 {
+				if ifi, ok := b.Instrs[len(b.Instrs)-1].(*ssa.If); ok {
+					if ph, neg := tracked.condPhi(ifi.Cond); ph != nil {
+						if v := it.env[ph]; v != 0 {
+							val := v == 1
+							if neg {
+								val = !val
+							}
+							if (si == 0) != val {
+								continue
+							}
+						}
+					}
+				}
+			}
+			env := it.env
+			if phis := tracked.inBlock[s.Index]; len(phis) > 0 {
+				env = map[*ssa.Phi]int8{}
+				for k, v := range it.env {
+					env[k] = v
+				}
+				// which predecessor position is b in s?
+				for pi, pb := range s.Preds {
+					if pb != b {
+						continue
+					}
+					for _, ph := range phis {
+						if cb, ok := boolConst(ph.Edges[pi]); ok {
+							if cb {
+								env[ph] = 1
+							} else {
+								env[ph] = 2
+							}
+						} else if src, ok := ph.Edges[pi].(*ssa.Phi); ok && tracked.set[src] {
+							env[ph] = it.env[src]
+						} else {
+							env[ph] = 0
+						}
+					}
+					break
+				}
+			}
+			st := state{s.Index, encode(env)}
+			if seenSt[st] {
+				continue
+			}
+			seenSt[st] = true
 			if !seen[s.Index] {
 				seen[s.Index] = true
 				if pred != nil {
 					pred[s.Index] = b.Index
 				}
-				q = append(q, s)
 			}
+			q = append(q, item{s, env})
 		}
 	}
 	return seen
+}
+
+type phiTrack struct {
+	set     map[*ssa.Phi]bool
+	order   []*ssa.Phi
+	inBlock map[int][]*ssa.Phi
+}
+
+var phiTrackCache = map[*ssa.Function]*phiTrack{}
+
+func (t *phiTrack) condPhi(cond ssa.Value) (*ssa.Phi, bool) {
+	neg := false
+	for {
+		if u, ok := cond.(*ssa.UnOp); ok && u.Op == token.NOT {
+			neg = !neg
+			cond = u.X
+			continue
+		}
+		break
+	}
+	if ph, ok := cond.(*ssa.Phi); ok && t.set[ph] {
+		return ph, neg
+	}
+	return nil, false
+}
+
+func trackedPhis(fn *ssa.Function) *phiTrack {
+	if t, ok := phiTrackCache[fn]; ok {
+		return t
+	}
+	t := &phiTrack{set: map[*ssa.Phi]bool{}, inBlock: map[int][]*ssa.Phi{}}
+	for _, b := range fn.Blocks {
+		for _, in := range b.Instrs {
+			ph, ok := in.(*ssa.Phi)
+			if !ok {
+				break
+			}
+			if !isBool(ph.Type()) {
+				continue
+			}
+			hasConst := false
+			for _, e := range ph.Edges {
+				if _, ok := boolConst(e); ok {
+					hasConst = true
+				}
+			}
+			if !hasConst {
+				continue
+			}
+			t.set[ph] = true
+			t.order = append(t.order, ph)
+			t.inBlock[b.Index] = append(t.inBlock[b.Index], ph)
+		}
+	}
+	phiTrackCache[fn] = t
+	return t
 }
 
 // succsFrom returns the successors of b that survive deletion (for source-relative
@@ -771,10 +906,27 @@ func dependsOn(v ssa.Value, pred func(ssa.Value) bool) bool {
 			return true
 		}
 		if a, ok := v.(*ssa.Alloc); ok {
-			for _, r := range *a.Referrers() {
-				if st, ok := r.(*ssa.Store); ok && st.Addr == a {
-					if walk(st.Val, d+1) {
-						return true
+			// stores into the local, directly or through field / element addresses
+			var addrs []ssa.Value = []ssa.Value{a}
+			for i := 0; i < len(addrs) && i < 64; i++ {
+				refs := addrs[i].Referrers()
+				if refs == nil {
+					continue
+				}
+				for _, r := range *refs {
+					switch r := r.(type) {
+					case *ssa.Store:
+						if r.Addr == addrs[i] && walk(r.Val, d+1) {
+							return true
+						}
+					case *ssa.FieldAddr:
+						if r.X == addrs[i] {
+							addrs = append(addrs, r)
+						}
+					case *ssa.IndexAddr:
+						if r.X == addrs[i] {
+							addrs = append(addrs, r)
+						}
 					}
 				}
 			}
